@@ -10,6 +10,7 @@ import KdVerif.Spec.PyIRRdExpected
   rdparse / rdparsen / rdparseseq / rdparseseqn / rdtrunc   the commands `parse` … `trunc` of Driver/Cmd/Container, through
                                                      `PyIRRd.parseVia Gen.PyIRRd.prog` instead of the hand model `parse`
   rdseek <tag hex> <data hex> <pos>                  `seek_until` interpreted on a reader standing at `pos`
+  rdinit <given>                                     `KdBufParser.__init__` interpreted (which dicts the tables are, metadata)
   `unsupported` when the translation contains a node outside the IR.
 -/
 open KdVerif
@@ -27,9 +28,28 @@ def cmdCheck : Cmd := fun _ =>
     (if g.parseV2 = x.parseV2 then [] else ["parse_v2"]) ++
     (if g.parseV3 = x.parseV3 then [] else ["parse_v3"]) ++
     (if g.parse = x.parse then [] else ["parse"]) ++
+    (if g.init = x.init then [] else ["__init__"]) ++
     (if Gen.PyIRRd.notes.isEmpty then [] else ["notes"])
   if d.isEmpty then "same" else
     "differs " ++ ",".intercalate d ++ (if unsupported then " unsupported" else "")
+
+def showTableRef : Option TableRef → String
+  | none => "unbound"
+  | some (.arg k) => s!"arg{k}"
+  | some .fresh => "new"
+
+/-- `rdinit <given>` : the GENERATED `KdBufParser.__init__` run on the positional arguments `<given>` (one character per
+    argument: `1` a dict, `0` `None`; `-` no argument), the metadata attributes holding junk before: which object the two
+    tables are (`arg<k>` = the caller's dict itself, `new` = a new empty dict), then the metadata as `parse…` prints it. -/
+def cmdInit : Cmd
+  | [g] =>
+    if Gen.PyIRRd.prog.init.hasUnsupported || !Gen.PyIRRd.notes.isEmpty then "unsupported" else
+    let given := (unDash g).toList.map (· == '1')
+    let junk : V3Meta := ⟨some ([1], [2]), [3], [4], some [5], false, some [6], some [7], some [8]⟩
+    match runCtor Gen.PyIRRd.prog.init given junk with
+    | .error e => "err " ++ e.name
+    | .ok o => s!"ok tp={showTableRef o.threadsPids} pn={showTableRef o.pidsNames} {showMeta o.md}"
+  | _ => "bad-op"
 
 def via (tbl : List (Bytes × PView)) (prior : PState) (data : Bytes) : Run3 Kevent :=
   parseVia Gen.PyIRRd.prog (plistOf tbl) fromKdBuf prior data
@@ -93,7 +113,7 @@ def cmdSeek : Cmd
   | _ => "bad-op"
 
 def commands : List (String × Cmd) :=
-  [("rdircheck", cmdCheck), ("rdparse", cmdParse), ("rdparsen", cmdParseN), ("rdparseseq", seqWith showRun),
+  [("rdircheck", cmdCheck), ("rdinit", cmdInit), ("rdparse", cmdParse), ("rdparsen", cmdParseN), ("rdparseseq", seqWith showRun),
    ("rdparseseqn", seqWith showRunCore), ("rdtrunc", cmdTrunc), ("rdseek", cmdSeek)]
 
 end Driver.PyIRRd
